@@ -75,6 +75,39 @@ def rewardLoop (m : POMDP) (b : Vec) (a : Nat) : Nat → Rat
 
 def rewardG (m : POMDP) (b : Vec) (a : Nat) : Rat := rewardLoop m b a m.S
 
+/-! ## the loop branch called in place (`bRet == &b`)
+
+  Nothing in the documentation of the pointer overloads forbids passing the input belief as the output.
+  The Eigen branch evaluates `bᵀ·T_a` into a temporary before assigning, so it is unaffected.  The loop
+  branch overwrites cell `s1` and later cells then read the overwritten value.  Modelled as written. -/
+
+/-- `updateBeliefUnnormalized`, loop branch, in place: state of the shared vector after cells `0..n-1` were written -/
+def unnormInPlaceG (m : POMDP) (b : Vec) (a o : Nat) : Nat → Vec
+  | 0 => b
+  | n+1 =>
+    let v := unnormInPlaceG m b a o n
+    fun k => if k = n then m.Ob n a o * sumTo m.S (fun s => m.T s a n * v s) else v k
+
+/-- `updateBeliefPartial`, loop branch, in place, one output cell: `br[s1] = 0.0` clears `b[s1]`, and the
+    accumulation `br[s1] += T(s,a,s1) * b[s]` reads its own running value when `s = s1` -/
+def predictCellInPlace (m : POMDP) (a : Nat) (v : Vec) (s1 : Nat) : Nat → Rat
+  | 0 => 0
+  | s+1 =>
+    let acc := predictCellInPlace m a v s1 s
+    acc + m.T s a s1 * (if s = s1 then acc else v s)
+
+def predictInPlaceG (m : POMDP) (b : Vec) (a : Nat) : Nat → Vec
+  | 0 => b
+  | n+1 =>
+    let v := predictInPlaceG m b a n
+    fun k => if k = n then predictCellInPlace m a v n m.S else v k
+
+/-- the Eigen branch on a SPARSE model called in place: assigning a sparse expression to a dense vector
+    clears the destination first (`dst.setZero()`) and then adds the stored entries, so with `br` aliasing `b`
+    the factor `b` is already zero when `O_a.col(o).cwiseProduct(…b…)` is evaluated
+    (Eigen behaviour: modelled, observed on the real library, not verified) -/
+def unnormInPlaceSp (_m : POMDP) (_b : Vec) (_a _o : Nat) : Vec := fun _ => 0
+
 /-! ## the Eigen branch -/
 
 /-- row vector times matrix: `(b.transpose() * M)(j) = Σ_i b(i) M(i,j)` -/
